@@ -90,6 +90,9 @@ pub enum HandleOp {
     IntoShared(u8),
     /// create a further pooled value while the other threads work (skipped when the pool has no room)
     Create(Make),
+    /// clone through one of the *public* handles: handles that stay alive to the end of the run and that every thread may
+    /// clone from at any time, through a shared reference (`OgreArc` is `Sync`) -- several threads at once, too
+    ClonePublic(u8),
 }
 
 #[derive(Clone, Debug, Serialize, Deserialize)]
@@ -103,7 +106,15 @@ pub struct HandleParams {
     /// handles left when a thread finishes: true = handed to the orchestrator (quiescent-point checks, sequential
     /// drops); false = dropped by the thread itself (concurrent last drops)
     pub leftovers_to_main: bool,
+    /// number of further values (created with `OgreArc::new_with`) whose single initial handle is public (see `ClonePublic`)
+    #[serde(default)]
+    pub public: usize,
 }
+
+/// the public handles: shared by reference between the simulated threads
+struct Publics(Vec<Owned>);
+unsafe impl Sync for Publics {}
+unsafe impl Send for Publics {}
 
 fn value_id(v: usize) -> u32 {
     0x100 * (v as u32 + 1) + 1
@@ -193,6 +204,24 @@ fn handles_body(p: &HandleParams) {
             }
         }
     }
+    let mut publics = vec![];
+    for i in 0..p.public {
+        let id = 0x5000 + i as u32 + 1;
+        match pool.create(id, Make::NewWith) {
+            None => {
+                ctx::report("C14", "allocation_failed_with_room", key("allocation_failed_with_room"), format!("creating public value #{} in a pool of {} failed", i, p.pool));
+                return;
+            }
+            Some(mut hs) => {
+                ctx::with_ctx(|c| {
+                    c.ledger.live.insert(id, 1);
+                    c.ledger.in_flight.insert(id, 0);
+                });
+                publics.push(Owned { id, h: hs.remove(0) });
+            }
+        }
+    }
+    let publics = Arc::new(Publics(publics));
     let inboxes: Arc<Vec<HLock<Vec<Owned>>>> = Arc::new((0..n_threads).map(|_| HLock::new(vec![])).collect());
     let leftovers: Arc<HLock<Vec<Owned>>> = Arc::new(HLock::new(vec![]));
     let mut handles = vec![];
@@ -201,6 +230,7 @@ fn handles_body(p: &HandleParams) {
         let mut stash = std::mem::take(&mut stashes[t]);
         let to_main = p.leftovers_to_main;
         let pool2 = Arc::clone(&pool);
+        let publics2 = Arc::clone(&publics);
         let mut created_here = 0u32;
         handles.push(shuttle::thread::spawn(move || {
             let key = move |oracle: &str| format!("handles/{}/{}", alloc_name, oracle);
@@ -228,6 +258,26 @@ fn handles_body(p: &HandleParams) {
                             }
                             stash.push(Owned { id, h });
                         }
+                    }
+                    continue;
+                }
+                if let HandleOp::ClonePublic(k) = op {
+                    if publics2.0.is_empty() {
+                        continue;
+                    }
+                    let public = &publics2.0[(k as usize) % publics2.0.len()];
+                    let id = public.id;
+                    ctx::trace(|| format!("thread {} clones through the public handle to {:#x}", t, id));
+                    ledger_begin(id, 0);
+                    ctx::op_mark("handle.clone[through a shared reference]");
+                    let c = public.h.try_clone();
+                    ctx::op_mark("");
+                    ledger_end(id, if c.is_some() { 1 } else { 0 });
+                    if let Some(c) = c {
+                        if c.id() != id || !c.intact() || c.addr() != public.h.addr() {
+                            ctx::report("C14", "deref_wrong_value", key("deref_wrong_value"), format!("a clone of the public handle to value {:#x} dereferences to something else", id));
+                        }
+                        stash.push(Owned { id, h: c });
                     }
                     continue;
                 }
@@ -308,7 +358,7 @@ fn handles_body(p: &HandleParams) {
                             }
                         }
                     }
-                    HandleOp::Create(_) => unreachable!(),
+                    HandleOp::Create(_) | HandleOp::ClonePublic(_) => unreachable!(),
                     HandleOp::IntoShared(k) => {
                         let i = pick(k);
                         if !stash[i].h.is_unique() {
@@ -353,6 +403,11 @@ fn handles_body(p: &HandleParams) {
     let mut rest: Vec<Owned> = std::mem::take(&mut *leftovers.lock().unwrap());
     for ib in inboxes.iter() {
         rest.append(&mut ib.lock().unwrap());
+    }
+    // the public handles were alive all along: now they are ordinary handles of the orchestrator
+    match Arc::try_unwrap(publics) {
+        Ok(Publics(mut v)) => rest.append(&mut v),
+        Err(_) => panic!("harness: the public handles are still shared"),
     }
     // quiescent point: reference counts are exact, every handle dereferences to its value
     for o in rest.iter() {
@@ -411,6 +466,7 @@ impl Scenario for Handles {
         let n_values = 1 + rng.below(pool.min(3) as u64) as usize;
         let values = (0..n_values).map(|_| *rng.pick(&[Make::New, Make::NewWith, Make::Clones2, Make::Clones3, Make::Unique, Make::UniqueToShared, Make::Clones2])).collect();
         let n_threads = 2 + rng.below(2) as usize;
+        let public = if pool > n_values && rng.chance(1, 2) { 1 + rng.below((pool - n_values).min(2) as u64) as usize } else { 0 };
         let max_ops = if tier == Tier::Thorough { 9 } else { 7 };
         let threads = (0..n_threads)
             .map(|_| {
@@ -418,6 +474,9 @@ impl Scenario for Handles {
                 (0..n)
                     .map(|_| {
                         let k = rng.below(4) as u8;
+                        if public > 0 && rng.chance(1, 4) {
+                            return HandleOp::ClonePublic(k);
+                        }
                         match rng.below(20) {
                             0..=5 => HandleOp::Clone(k),
                             6..=10 => HandleOp::Drop(k),
@@ -436,7 +495,7 @@ impl Scenario for Handles {
         if rng.chance(1, 4) {
             sched.origin = u32::MAX - rng.below(3 * pool as u64 + 2) as u32;
         }
-        HandleParams { sched, atomic_alloc: rng.chance(1, 2), pool, values, threads, leftovers_to_main: rng.chance(1, 3) }
+        HandleParams { sched, atomic_alloc: rng.chance(1, 2), pool, values, threads, leftovers_to_main: rng.chance(1, 3), public }
     }
     fn sched<'a>(&self, p: &'a HandleParams) -> &'a SchedSpec {
         &p.sched
